@@ -221,11 +221,11 @@ Proof. vm_compute. repeat split; reflexivity. Qed.
 Example c04_model_runs_a_case :
   run_track [[1; 1; 3]; [2; 1; 2; 0; 0]; [4; 1; 0]; [4; 0; 0]; [3; 1; 1; 1; 1; 9]; [3; 2; 1; 1; 0; 7]] =
   [[23; 1; 1; 1]; [21; 1; 1]; [21; 2; 1];
-   [20; 0; 1; 0; 1; 1; 1; 0; 1; 2]; [20; 0; 1; 1; 0; 0; 0; 0; 0; 0; 0]; [20; 0; 1; 1; 1; 1; 1; 1; 9; 1; 9];
+   [20; 0; 1; 0; 1; 1; 1; 0; 1; 2; 1]; [20; 0; 1; 1; 0; 0; 0; 0; 0; 0; 0; 0]; [20; 0; 1; 1; 1; 1; 1; 1; 9; 1; 9; 1];
    [20; 1; 1; 0; 1; 1; 1; 0; 1; 2]; [20; 1; 1; 1; 0; 0; 0; 0; 0; 1; 0]; [20; 1; 1; 1; 1; 1; 1; 1; 9; 1; 9];
    [20; 2; 1; 0; 1; 1; 1; 0; 1; 2]; [20; 2; 1; 1; 0; 0; 0; 0; 0; 1; 0]; [20; 2; 1; 1; 1; 1; 1; 1; 9; 1; 9];
    [23; 2; 1; 1]; [21; 1; 2]; [21; 2; 2];
-   [20; 0; 2; 0; 1; 1; 2; 0; 1; 1]; [20; 0; 2; 1; 0; 1; 1; 2; 7; 1; 7]; [20; 0; 2; 1; 1; 1; 0; 1; 9; 0; 0];
+   [20; 0; 2; 0; 1; 1; 2; 0; 1; 1; 2]; [20; 0; 2; 1; 0; 1; 1; 2; 7; 1; 7; 1]; [20; 0; 2; 1; 1; 1; 0; 1; 9; 0; 0; 1];
    [20; 1; 2; 0; 1; 1; 2; 0; 1; 1]; [20; 1; 2; 1; 0; 1; 1; 2; 7; 1; 7]; [20; 1; 2; 1; 1; 1; 0; 1; 9; 1; 9];
    [20; 2; 2; 0; 1; 1; 2; 0; 1; 1]; [20; 2; 2; 1; 0; 1; 1; 2; 7; 1; 7]; [20; 2; 2; 1; 1; 1; 0; 1; 9; 1; 9]].
 Proof. vm_compute. reflexivity. Qed.
